@@ -162,8 +162,8 @@ fn decode_and_compare(d: &Desc, bytes: &[u8], problems: &mut Vec<String>) -> Res
                 _ => Some("optional presence differs".to_string()),
             }
         }
-        Desc::Raw(b) => (spec::read_raw(&mut r, problems)?.to_bools() != bools_of(b)).then(|| "raw bits differ".to_string()),
-        Desc::Int { width, values } => {
+        Desc::Raw(b) | Desc::RawHist(b) => (spec::read_raw(&mut r, problems)?.to_bools() != bools_of(b)).then(|| "raw bits differ".to_string()),
+        Desc::Int { width, values } | Desc::IntHist { width, values } => {
             let iv = spec::read_int_vec(&mut r, problems)?;
             (iv.width != *width as u64 || iv.values != *values).then(|| format!("integer vector differs: width {} values {:?}", iv.width, &iv.values[..iv.values.len().min(8)]))
         }
